@@ -958,6 +958,8 @@ class Wrapc(util.WrapperMixin):
                         fmt_func.namespace_scope + fmt_func.class_scope
                     )
                 else:
+                    # CXX_this may be set for this function only.
+                    fmt_func.CXX_this_call = fmt_func.CXX_this + "->"
                     # 'this' argument, always a pointer to a shadow type.
                     proto_list.append( "{}{} * {}".format(
                         fmt_func.c_const,
